@@ -410,7 +410,7 @@ func (c *Ctx) c13Crypt(sizes []int) {
 }
 
 func (c *Ctx) c13Workbook() {
-	for i, pw := range []string{"p", "secret", "пароль-ключ", "😀🔑", strings.Repeat("k", 255), "a b\tc"} {
+	for i, pw := range []string{"p", "secret", "пароль-ключ", "😀🔑", strings.Repeat("k", 255), "a b\tc", "pw\U0001F600", "\U00010348x"} {
 		desc := map[string]interface{}{"password": pw}
 		c.guard("C13_no_panic", desc, func() {
 			f := excelize.NewFile()
@@ -435,7 +435,10 @@ func (c *Ctx) c13Workbook() {
 				c.Fail("oracle", "C13_open_roundtrip", desc, "content differs after password save/open: "+firstDiff(before, after), "")
 			}
 			g.Close()
-			for _, wrong := range []string{"", pw + "x", strings.ToUpper(pw) + "1", "wrong"} {
+			for _, wrong := range append([]string{"", pw + "x", strings.ToUpper(pw) + "1", "wrong"}, nearMissPasswords(pw)...) {
+				if len(wrong) > 255 {
+					continue
+				}
 				if wrong == pw {
 					continue
 				}
@@ -479,7 +482,7 @@ func (c *Ctx) c13Workbook() {
 }
 
 func runC13(c *Ctx) {
-	c.R.Rule = "compound-file writer driven with deterministic stream contents at sizes 0.., around the 4096-byte mini-stream cutoff, every 512 boundary +-1 up to 128 KiB (quick: every 8th), 128-entry FAT boundaries, the 109-FAT-sector DIFAT threshold (~7 MiB; quick: one size each side, thorough: a sweep and 2 DIFAT sectors): independent MS-CFB reader (structure + extracted streams = written streams), sector layout vs extracted model; Encrypt/Decrypt round trip and EncryptedPackage layout for payload sizes 0..600 and boundaries with passwords (ASCII, Cyrillic, astral, NUL, 255 bytes); workbook save/open with password and wrong passwords; Office fixtures. non-trivial = non-empty streams"
+	c.R.Rule = "compound-file writer driven with deterministic stream contents at sizes 0.., around the 4096-byte mini-stream cutoff, every 512 boundary +-1 up to 128 KiB (quick: every 8th), 128-entry FAT boundaries, the 109-FAT-sector DIFAT threshold (~7 MiB; quick: one size each side, thorough: a sweep and 2 DIFAT sectors): independent MS-CFB reader (structure + extracted streams = written streams), sector layout vs extracted model; Encrypt/Decrypt round trip and EncryptedPackage layout for payload sizes 0..600 and boundaries with passwords (ASCII, Cyrillic, astral, NUL, 255 bytes); workbook save/open with password and wrong passwords; the password gate judged by an independent ECMA-376 standard-encryption verifier (UTF-16LE, SHA-1, 50000 iterations) on the written EncryptionInfo, with near-miss passwords (characters above U+FFFF cut to 16 bits, surrogate halves, 8-bit cuts, case, trailing NUL/space, prefixes); Office fixtures. non-trivial = non-empty streams"
 	var sizes [][2]int
 	infos := []int{248, 0, 1, 63, 64, 65, 4095, 4096}
 	for _, n := range []int{0, 1, 8, 63, 64, 65, 127, 128, 4087, 4088, 4089, 4095, 4096, 4097, 4608, 8191, 8192, 8193} {
@@ -528,6 +531,7 @@ func runC13(c *Ctx) {
 	}
 	c.c13Crypt(ns)
 	c.c13Workbook()
+	c.c13Gate()
 	c.Sample(map[string]interface{}{"container sizes": len(sizes), "examples": sizes[:3], "payload sizes": len(ns)})
 }
 
